@@ -88,7 +88,9 @@ def handle : Handler := fun m j =>
       return obj [("r", Json.arr #[sJ r.1, sJ r.2])]
   | "path.check1" => some do
       return obj [("r", toJson (check1 (← gs j "cwd") (← gs j "base") (← gs j "loc")))]
-  | "path.loadbase" => some do return obj [("r", sJ (loadBase (← gs j "p")))]
+  | "path.loadbase" => some do
+      return obj [("r", sJ (loadBase (← gs j "cwd") (← gs j "p"))),
+                  ("join", sJ (loadBaseJoin (← gs j "cwd") (← gs j "p")))]
   | "path.loadbase_unfixed" => some do return obj [("r", sJ (loadBaseUnfixed (← gs j "p")))]
   | "path.reads" => some do
       -- one tree, one cwd, many (base, loc, offset, length, entry point) queries
@@ -142,9 +144,14 @@ def handle : Handler := fun m j =>
           | none => Json.str "none"
       return obj [("r", Json.arr (ps.map show1).toArray)]
   | "path.walker" => some do
-      let g ← parseGTree (← j.getObjVal? "tree")
-      return obj [("walker", strsJ (sortedUnique (allTensors g))), ("reach", strsJ (sortedUnique (reachGraph g))),
-                  ("shallow", strsJ (sortedUnique (allTensorsShallow g)))]
+      let t ← j.getObjVal? "tree"
+      let g ← parseGTree (← t.getObjVal? "main")
+      let mut fsRev : List GTree := []
+      for f in (← getArr t "funcs") do
+        fsRev := (← parseGTree f) :: fsRev
+      let fs := fsRev.reverse
+      return obj [("walker", strsJ (sortedUnique (loadTensors g fs))), ("reach", strsJ (sortedUnique (reachModel g fs))),
+                  ("shallow", strsJ (sortedUnique (allTensorsShallow g))), ("main_only", strsJ (sortedUnique (allTensors g)))]
   | "path.session" => some do
       -- one tensor (loc, offset, length), a sequence of steps:
       --   {"op":"fs","fs":{..}} | {"op":"base","base":".."} | {"op":"release"} | {"op":"call","ep":".."}
